@@ -2,7 +2,7 @@
 # eval_seed.sh <ID> <check ids...>: confirm a seeded change (tests pass, demo fails with / passes without),
 # then run the named checks against /repo with the patch applied, and undo it.
 ID=$1; shift
-OUT=/tmp/seed_out/$ID; WT=/tmp/wt_$ID
+OUT=${OUTBASE:-/tmp/seed_out}/$ID; WT=${WTBASE:-/tmp/wt_}$ID
 echo "== confirm in worktree $WT"
 cd $WT || exit 1
 git diff --stat | tail -1
@@ -13,7 +13,7 @@ echo "== checks against /repo with the patch"
 cd /repo && git apply $OUT/patch.diff || { echo "patch does not apply to /repo"; exit 1; }
 cd /verif
 for c in "$@"; do
-  timeout 1200 /venv/bin/python harness/check.py $c > /tmp/seed_out/$ID/check_$c.txt 2>&1; rc=$?
-  echo "check $c rc=$rc $(grep -c '^VIOLATION' /tmp/seed_out/$ID/check_$c.txt) violation line(s): $(grep '^VIOLATION' /tmp/seed_out/$ID/check_$c.txt | head -2 | tr '\n' ' ')"
+  timeout 1200 /venv/bin/python harness/check.py $c > $OUT/check_$c.txt 2>&1; rc=$?
+  echo "check $c rc=$rc $(grep -c '^VIOLATION' $OUT/check_$c.txt) violation line(s): $(grep '^VIOLATION' $OUT/check_$c.txt | head -2 | tr '\n' ' ')"
 done
 cd /repo && git checkout -- . && git status --short | grep -v '^??' ; echo "== /repo restored"
